@@ -29,6 +29,9 @@ type kScenario struct {
 	// Script, if set: no exploration - the fixed action list is executed once and drained
 	// (confirmation of a finding at the production constant)
 	Script []kAction `json:"-"`
+	// LockGates: acquisitions of the state lock by operation goroutines are scheduling points (C13 only: the
+	// per-action monitors of C09 assume that a call runs to its end within its action)
+	LockGates bool `json:"lock_gates,omitempty"`
 }
 
 type kReplay struct {
@@ -326,7 +329,7 @@ func (c *kCtx) drain(k *kSys, hist []int, op int) {
 		site := c.deadlockSite(blocked)
 		outcome = "deadlock:" + site
 		if site == "no-call-blocked-outside-the-state-lock" {
-			c.viol("deadlock", "state-lock-never-released", fmt.Sprintf("calls that never return: %v; every blocked call waits for the state lock and no call holds it: a holder returned without unlocking", pend), hist, op)
+			c.viol("deadlock", "state-lock-never-released", fmt.Sprintf("calls that never return: %v; every blocked call waits for the state lock: a holder returned without unlocking, or a call that holds it waits for it again behind a waiting writer", pend), hist, op)
 		} else {
 			c.viol("deadlock", "send-under-stateLock/"+site, fmt.Sprintf("calls that never return: %v; blocked outside the state lock: %s (the request channel is full, the sender holds the state lock, the plotter needs it to make room)", pend, site), hist, op)
 		}
@@ -353,6 +356,7 @@ func (c *kCtx) try(hist []int, op int) (key string, ops []int, expand bool) {
 }
 
 func (c *kCtx) try1(hist []int, op int) (string, []int, bool, bool) {
+	kLockGates = c.sc.LockGates
 	k := kNew(c.sc.Initial, c.sc.ChanCap)
 	defer k.close()
 	var blocked []qsched.GoroutineInfo
@@ -466,6 +470,7 @@ func kRun(r *vk.Run, prop string, scenarios []kScenario, c09, c13 bool, rule str
 			}
 		}
 		c := &kCtx{r: r, prop: prop, sc: sc, actID: map[string]int{}, checkC09: c09, checkC13: c13, outcomes: map[string]bool{}}
+		kLockGates = sc.LockGates
 		k := kNew(sc.Initial, sc.ChanCap)
 		// resolve action names step by step on a live instance
 		var ids []int
@@ -511,6 +516,7 @@ func kRun(r *vk.Run, prop string, scenarios []kScenario, c09, c13 bool, rule str
 				continue
 			}
 			c := &kCtx{r: r, prop: prop, sc: sc, actID: map[string]int{}, checkC09: c09, checkC13: c13, outcomes: map[string]bool{}}
+			kLockGates = sc.LockGates
 			k := kNew(sc.Initial, sc.ChanCap)
 			var ids []int
 			for _, a := range sc.Script {
@@ -527,6 +533,7 @@ func kRun(r *vk.Run, prop string, scenarios []kScenario, c09, c13 bool, rule str
 			per = append(per, fmt.Sprintf("%s: scripted %d actions at chan_cap=%d, deadlocked=%d", sc.Name, len(ids), sc.ChanCap, c.deadlocks))
 			continue
 		}
+		kLockGates = sc.LockGates
 		k0 := kNew(sc.Initial, sc.ChanCap)
 		first := k0.enabled(sc.Alphabet, sc.Budget)
 		initKey := k0.stateKey(nil, sc.Budget, "")
@@ -576,7 +583,7 @@ func kRun(r *vk.Run, prop string, scenarios []kScenario, c09, c13 bool, rule str
 
 func TestVerifC09(t *testing.T) {
 	r := vk.Start("C09", "model_checking")
-	h := vk.Pick(r, 22, 30)
+	h := vk.Pick(r, 26, 34)
 	var scs []kScenario
 	for _, init := range []string{"R", "Y", "RR", "RY", "YY"} {
 		b := vk.Pick(r, 3, 4)
@@ -603,11 +610,11 @@ func TestVerifC09(t *testing.T) {
 
 func TestVerifC13(t *testing.T) {
 	r := vk.Start("C13", "model_checking")
-	b, h := vk.Pick(r, 3, 4), vk.Pick(r, 24, 32)
+	b, h := vk.Pick(r, 3, 4), vk.Pick(r, 27, 36)
 	var scs []kScenario
 	for _, cap := range []int{0, 1, 2} {
 		for _, init := range []string{"RR", "RY", "RRR"} {
-			if r.Quick() && (cap == 2 || init == "RRR") {
+			if r.Quick() && (cap == 2 || init == "RRR" || (cap == 1 && init == "RR")) {
 				continue
 			}
 			alpha := kAlphabet(len(init), false)
@@ -623,6 +630,16 @@ func TestVerifC13(t *testing.T) {
 			alpha = append(alpha, kAction{Kind: "kstop", WS: -1})
 			scs = append(scs, kScenario{Name: fmt.Sprintf("cap%d-%s", cap, init), Initial: init, ChanCap: cap, Budget: b, Horizon: h, Alphabet: alpha})
 		}
+	}
+	// interleavings INSIDE calls: with lock gates every acquisition of the state lock by a call is a scheduling point, so
+	// other calls and the plotter's steps are ordered between the per-workspace lock scopes of the bulk calls
+	for _, init := range []string{"RR", "RY"} {
+		if r.Quick() && init == "RR" {
+			continue
+		}
+		alpha := kAlphabet(len(init), true)
+		alpha = append(alpha, kAction{Kind: "kstop", WS: -1})
+		scs = append(scs, kScenario{Name: "lockgates-" + init, Initial: init, ChanCap: 8, Budget: vk.Pick(r, 2, 3), Horizon: h + 8, Alphabet: alpha, LockGates: true})
 	}
 	if r.Thorough() {
 		// the finding at the production constant: a plot is in progress, 1024 plot requests fill
